@@ -94,10 +94,13 @@ pub fn judge(root: &Path, c: &Case) -> Result<(), (String, String)> {
         return Err(("oracle".into(), format!("oracle produced invalid shards {} {} for n {}", h1, h2, n_eff)));
     }
     let world = trace_world(&[root]);
+    // the places a lookup consulted for the entry, in order of first consultation: any call that
+    // names (or holds a descriptor on) a path ending in the entry's name, whatever the call is
+    let suffix = format!("/{}", name);
     let opens = |ev: &[crate::shim::Event]| -> Vec<String> {
         let mut v: Vec<String> = Vec::new();
-        for e in ev.iter().filter(|e| e.call == "open" || e.call == "stat") {
-            if e.call == "open" && v.last() != Some(&e.path) {
+        for e in ev.iter().filter(|e| matches!(e.call, "open" | "stat" | "utimensat" | "chmod" | "unlink") && e.path.ends_with(&suffix) && !e.path.contains(".kismet_temp")) {
+            if !v.contains(&e.path) {
                 v.push(e.path.clone());
             }
         }
@@ -117,8 +120,8 @@ pub fn judge(root: &Path, c: &Case) -> Result<(), (String, String)> {
                 return Err(("lookup-empty:get-probes".into(), format!("get probed {:?}, expected [{}, {}]", probed, p1, p2)));
             }
             let n_open = ev.iter().filter(|e| e.call == "open").count();
-            if n_open != 2 {
-                return Err(("lookup-empty:get-open-count".into(), format!("get made {} open attempts, expected 2", n_open)));
+            if n_open > 2 {
+                return Err(("lookup-empty:get-open-count".into(), format!("get made {} open attempts, expected at most 2", n_open)));
             }
             let (r, ev) = traced(&world, || cache.touch(key));
             match r {
